@@ -82,7 +82,7 @@ def main():
         sd = os.path.join(VERIF, "seeded")
         for name in sorted(os.listdir(sd)) if os.path.isdir(sd) else []:
             meta = json.load(open(os.path.join(sd, name, "meta.json")))
-            items.append({"name": "seeded/" + name, "props": meta.get("checks", [meta["property"]]), "patch": os.path.join(sd, name, "patch.diff")})
+            items.append({"name": "seeded/" + name, "props": meta.get("checks", [meta["property"]]), "patch": os.path.join(sd, name, "patch.diff"), "expected": meta.get("expected", "caught")})
     else:
         for m in MUTATIONS:
             items.append(m)
@@ -105,12 +105,12 @@ def main():
                 continue
             res = run_checks(d, m["props"])
             caught = [p for p, v in res.items() if v["exit"] == 1]
-            line = {"name": m["name"], "props": m["props"], "caught_by": caught, "results": res}
+            line = {"name": m["name"], "props": m["props"], "caught_by": caught, "results": res, "expected": m.get("expected", "caught")}
             if suite:
                 ok, tail = run_suite(d)
                 line["suite_passes"] = ok
             results.append(line)
-            status = "CAUGHT" if caught else "MISSED"
+            status = "CAUGHT" if caught else ("MISSED (recorded limit, see DESIGN.md section 6)" if m.get("expected") == "missed" else "MISSED")
             print(f"{m['name']:44s} {status:7s} " + " ".join(f"{p}:exit{v['exit']}({v['wall']}s)" for p, v in res.items()) + (f" suite={'pass' if line.get('suite_passes') else 'FAIL'}" if suite else ""), flush=True)
             for p, v in res.items():
                 if v["tail"]:
@@ -121,7 +121,7 @@ def main():
     sh([os.path.join(VERIF, "check"), "sync"], cwd=VERIF)
     os.makedirs(os.path.join(VERIF, "work"), exist_ok=True)
     json.dump(results, open(os.path.join(VERIF, "work", "audit-results.json"), "w"), indent=1)
-    missed = [r["name"] for r in results if "caught_by" in r and not r["caught_by"]]
+    missed = [r["name"] for r in results if "caught_by" in r and not r["caught_by"] and r.get("expected") != "missed"]
     print(f"\n{len(results)} mutants, {len(missed)} missed: {missed}")
     return 1 if missed else 0
 
